@@ -63,6 +63,7 @@ fn run_with_fault(h: &History, plan: Option<FaultPlan>) -> FaultRun {
     let fs = SimFs::new();
     let mut cfg = h.cfg.clone();
     fs.reset_calls();
+    fs.record_calls(true);
     fs.set_fault(plan.clone());
     let mut poss = Possible::default();
     // batches that returned Err: (index in history, ops)
@@ -233,6 +234,20 @@ fn run_with_fault(h: &History, plan: Option<FaultPlan>) -> FaultRun {
     }
     out.calls = fs.calls();
     out.fired = fs.faults_fired();
+    // which call did the fault hit?
+    let hit: Option<(&'static str, String)> = plan.as_ref().and_then(|p| fs.call_kinds().get(p.at as usize).cloned());
+    let table_read_fault = matches!(&hit, Some((k, path)) if (*k == "read_from" || *k == "read" || *k == "open_file" || *k == "len") && path.ends_with(".rdb"));
+    let reclass = |sig: &mut Option<(String, String)>| {
+        if let Some((s, w)) = sig {
+            if table_read_fault && plan.as_ref().map_or(false, |p| !p.sticky)
+                && (s == "c08:scan-misses-acknowledged-write" || s == "c08:acknowledged-write-not-visible" || s == "c08:acknowledged-write-lost-after-reopen" || s == "c08:scan-returns-impossible-value" || s == "c08:read-returns-impossible-value" || s == "c08:impossible-value-after-reopen")
+            {
+                *s = "c08:table-read-error-swallowed-by-iterator-loses-data".into();
+                *w = format!("{w} — the injected failure hit a {} of {}: the table iterator logged it and ended early, the compaction consuming it wrote an incomplete output and deleted its inputs", hit.as_ref().unwrap().0, hit.as_ref().unwrap().1);
+            }
+        }
+    };
+    reclass(&mut out.sig);
     // the fault goes away; close, reopen, everything acknowledged must be there
     fs.set_fault(None);
     if let Some(old) = db.take() {
@@ -296,6 +311,7 @@ fn run_with_fault(h: &History, plan: Option<FaultPlan>) -> FaultRun {
             let _ = std::panic::catch_unwind(std::panic::AssertUnwindSafe(move || drop(d2)));
         }
     }
+    reclass(&mut out.sig);
     out
 }
 
